@@ -4,6 +4,7 @@ open Lean Proto GuardRun
 def handle (j : Json) : Except String Json := do
   match (← getStr j "op") with
   | "resolve" => handleResolve j
+  | "resolve_text" => handleResolveText j
   | "exec" => handleExec j
   | op => throw s!"unknown op {op}"
 
